@@ -214,6 +214,9 @@ func (vc *VC) trObj(obj types.Object, env *Env) TV {
 		}
 		loc := vc.globalLoc(g)
 		t := o.Type()
+		if types.Identical(t, types.Universe.Lookup("error").Type()) && (strings.HasPrefix(g.Name(), "Err") || strings.HasPrefix(g.Name(), "err") || g.Name() == "EOF") {
+			return TV{T: t, S: vc.errGlobalConst(g)}
+		}
 		if isArray(t) {
 			return TV{T: types.NewPointer(t), S: loc}
 		}
@@ -850,11 +853,17 @@ func (vc *VC) trCall(x *ECall, env *Env) TV {
 	case "typeis":
 		a := vc.tr(x.Args[0], env)
 		tn := x.Args[1].String()
+		if es, ok := x.Args[1].(*EStr); ok {
+			tn = es.Val
+		}
 		t := vc.parseType(tn, env.pkg)
 		return TV{T: B, S: eq(sx("ityp", a.S), fmt.Sprint(vc.typeID(t)))}
 	case "ifaceptr":
 		a := vc.tr(x.Args[0], env)
 		tn := x.Args[1].String()
+		if es, ok := x.Args[1].(*EStr); ok {
+			tn = es.Val
+		}
 		t := vc.parseType(tn, env.pkg)
 		return TV{T: t, S: sx("iptr", a.S)}
 	case "has":
@@ -955,7 +964,14 @@ func (vc *VC) trQuant(x *EQuant, env *Env) TV {
 		}
 	}
 	if len(good) > 0 && x.Forall {
-		// drop patterns that are sub-terms of other patterns (keep smaller ones)
+		// single bound variable used as a slice index  base[off + k]: re-index the quantifier by the
+		// absolute element index j = off + k so that the pattern (select H (lelem base j)) is free of
+		// arithmetic (E-matching on terms with + inside is unreliable)
+		if len(mine) == 1 {
+			if nb, np, ok := vc.reindexQuant(mine[0], body, good); ok {
+				return TV{T: types.Typ[types.Bool], S: fmt.Sprintf("(forall ((%s %s)) (! %s :pattern (%s)))", mine[0], vc.ar.IX(), nb, np)}
+			}
+		}
 		var ps []string
 		for _, g := range good {
 			ps = append(ps, ":pattern ("+g+")")
@@ -1053,3 +1069,74 @@ func (vc *VC) typeFromAST(e ast.Expr, pkg *types.Package) types.Type {
 }
 
 var _ = token.NoPos
+
+// reindexQuant: if some pattern candidate has the shape (select H (lelem B (+ O k))) with k the bound
+// variable and H, B, O free of k, substitute k := (- k O) in the body; the candidate becomes
+// (select H (lelem B k)).
+func (vc *VC) reindexQuant(k, body string, cands []string) (string, string, bool) {
+	add, sub := "+", "-"
+	if vc.ar.BV {
+		add, sub = "bvadd", "bvsub"
+	}
+	// only for IX-sorted binders
+	for _, c := range cands {
+		// find "(lelem B (+ O k))" inside c with c == "(select H (lelem ...))"
+		if !strings.HasPrefix(c, "(select ") {
+			continue
+		}
+		inner := c[len("(select ") : len(c)-1]
+		parts := splitSexp(inner)
+		if len(parts) != 2 || containsSym(parts[0], k) || !strings.HasPrefix(parts[1], "(lelem ") {
+			continue
+		}
+		le := splitSexp(parts[1][len("(lelem ") : len(parts[1])-1])
+		if len(le) != 2 || containsSym(le[0], k) {
+			continue
+		}
+		idx := le[1]
+		prefix := "(" + add + " "
+		if !strings.HasPrefix(idx, prefix) {
+			continue
+		}
+		ops := splitSexp(idx[len(prefix) : len(idx)-1])
+		if len(ops) != 2 || ops[1] != k || containsSym(ops[0], k) {
+			continue
+		}
+		off := ops[0]
+		repl := "(" + sub + " " + k + " " + off + ")"
+		nb := replaceSym(body, k, repl)
+		// simplify (+ O (- k O)) -> k
+		nb = strings.ReplaceAll(nb, "("+add+" "+off+" "+repl+")", k)
+		np := "(select " + parts[0] + " (lelem " + le[0] + " " + k + "))"
+		if !strings.Contains(nb, np) {
+			continue
+		}
+		return nb, np, true
+	}
+	return "", "", false
+}
+
+// replaceSym replaces whole-symbol occurrences of sym in t.
+func replaceSym(t, sym, repl string) string {
+	var sb strings.Builder
+	i := 0
+	for i < len(t) {
+		j := strings.Index(t[i:], sym)
+		if j < 0 {
+			sb.WriteString(t[i:])
+			break
+		}
+		j += i
+		end := j + len(sym)
+		okL := j == 0 || strings.ContainsRune(" ()", rune(t[j-1]))
+		okR := end == len(t) || strings.ContainsRune(" ()", rune(t[end]))
+		sb.WriteString(t[i:j])
+		if okL && okR {
+			sb.WriteString(repl)
+		} else {
+			sb.WriteString(sym)
+		}
+		i = end
+	}
+	return sb.String()
+}
